@@ -134,6 +134,13 @@ func (s *Storer) newRunId(id string) error {
 }
 
 func (s *Storer) SetRunId(new string) error {
+	// "" and "?" name no replication id : newRunId ignores both. Without this test a "?"
+	// with a current id got as far as changeReplId : the current directory was renamed to
+	// <base>/? while runId, dir and the index stayed on the old name - every later open of a
+	// segment or snapshot file, and the next rotation, failed on a directory that was gone.
+	if new == "" || new == "?" {
+		return nil
+	}
 	old := s.runId
 	if old == "" || !ExistReplId(s.baseDir, old) {
 		return s.newRunId(new)
